@@ -10,6 +10,7 @@
 (*     with blanks of the statement's style around its operator)            *)
 (*   | ldo (ldo [a + 2]: an indirect register with an offset; the register *)
 (*     name inside the brackets follows the style's letter case)           *)
+(*   | strt (.cstr "a<TAB>b", a string with a tab character in it)          *)
 (*   | strg (.cstr "glob1: b", a string that repeats the spelling of the    *)
 (*     label g1 with its colon)                                            *)
 (*   | cif n v w (a conditional block on five lines: #if MODE == fast or   *)
@@ -78,6 +79,7 @@ StmtItems(s, y, j) ==
                           It("BL", y.sep, ""), It("NUM", "", 2), It("RBR", "", "")>>
       [] s.k = "str" -> <<It("DIR", ".cstr", ""), It("BL", y.sep, ""), It("STR", "", 0)>>
       [] s.k = "strg" -> <<It("DIR", ".cstr", ""), It("BL", y.sep, ""), It("STRL", "", 0)>>
+      [] s.k = "strt" -> <<It("DIR", ".cstr", ""), It("BL", y.sep, ""), It("STRT", "", 0)>>
       [] OTHER       -> <<It("DIR", ".byte", ""), It("BL", y.sep, ""), It("NUM", "", s.v), It("COMMA", y.sep, ""), It("NUM", "", s.w)>>
 
 RECURSIVE RenderFrom(_, _, _)
@@ -96,7 +98,7 @@ Render(p, c) == RenderFrom(p, c, 1) \o <<It("NL", "", "")>>
 \* the tokenizer machine: one item per step.  z = [out, cur, incom]
 Flush(z) == IF z.cur = <<>> THEN z ELSE [z EXCEPT !.out = Append(@, z.cur), !.cur = <<>>]
 Norm(it) == CASE it.t = "MN" -> <<"MN", it.a>> [] it.t = "REG" -> <<"REG", it.a>> [] it.t = "NUM" -> <<"NUM", it.b>>
-              [] it.t = "CHR" -> <<"CHR", it.b>> [] it.t = "STR" -> <<"STR", 0>> [] it.t = "STRL" -> <<"STRL", 0>>
+              [] it.t = "CHR" -> <<"CHR", it.b>> [] it.t = "STR" -> <<"STR", 0>> [] it.t = "STRL" -> <<"STRL", 0>> [] it.t = "STRT" -> <<"STRT", 0>>
               [] it.t \in {"SYM", "OP", "WORD"} -> <<it.t, it.a>> [] it.t \in {"PLUS", "LBR", "RBR"} -> <<it.t, "">> [] it.t = "DSYM" -> <<"DSYM", it.b>>
               [] it.t = "REF" -> <<"REF", it.a>> [] it.t = "LAB" -> <<"LAB", it.a>> [] it.t = "DIR" -> <<"DIR", it.a>> [] OTHER -> <<"?", "">>
 TokStep(z, it) ==
@@ -123,6 +125,7 @@ NormStmts(s, j) ==              \* the tokenizer's statements for one abstract s
       [] s.k = "ldo" -> << <<<<"MN", "ldo">>, <<"LBR", "">>, <<"REG", "a">>, <<"PLUS", "">>, <<"NUM", 2>>, <<"RBR", "">>>> >>
       [] s.k = "str" -> << <<<<"DIR", ".cstr">>, <<"STR", 0>>>> >>
       [] s.k = "strg" -> << <<<<"DIR", ".cstr">>, <<"STRL", 0>>>> >>
+      [] s.k = "strt" -> << <<<<"DIR", ".cstr">>, <<"STRT", 0>>>> >>
       [] s.k = "cif" -> << <<<<"DIR", "#if">>, <<"SYM", "MODE">>, <<"OP", "==">>, <<"WORD", IF s.n = "eq" THEN "fast" ELSE "slow">>>>,
                            NormByte(<<"NUM", s.v>>, <<"NUM", s.v>>), <<<<"DIR", "#else">>>>, NormByte(<<"NUM", s.w>>, <<"NUM", s.w>>),
                            <<<<"DIR", "#endif">>>> >>
@@ -137,7 +140,7 @@ NormFrom(p, j) == IF j > Len(p) THEN <<>> ELSE NormStmts(p[j], j) \o NormFrom(p,
 NormProg(p) == NormFrom(p, 1)
 
 \* what P assembles to on the carrier ISA (labels are addresses; little endian 16 bit operands)
-Size(s) == CASE s.k = "lab" -> 0 [] s.k = "i0" -> 1 [] s.k \in {"i1l", "ldo"} -> 3 [] s.k = "str" -> 4 [] s.k = "strg" -> 9 [] OTHER -> 2
+Size(s) == CASE s.k = "lab" -> 0 [] s.k = "i0" -> 1 [] s.k \in {"i1l", "ldo"} -> 3 [] s.k \in {"str", "strt"} -> 4 [] s.k = "strg" -> 9 [] OTHER -> 2
 AddrOf(p, j) == FoldLeft(LAMBDA acc, s : acc + Size(s), 0, SubSeq(p, 1, j - 1))
 LabelAddr(p, n) == LET ds == {j \in 1..Len(p) : p[j].k = "lab" /\ p[j].n = n} IN IF ds = {} THEN -1 ELSE AddrOf(p, CHOOSE j \in ds : TRUE)
 \* at: the statement's own address (the relative branch needs it)
@@ -150,6 +153,7 @@ StmtBytes(p, s, at) ==
       [] s.k = "i1c" -> <<168, s.v>>
       [] s.k = "str" -> <<97, 34, 98, 0>>
       [] s.k = "strg" -> <<103, 108, 111, 98, 49, 58, 32, 98, 0>>
+      [] s.k = "strt" -> <<97, 9, 98, 0>>               \* "a<TAB>b": a tab character inside a string is data, wherever the string starts
       [] s.k = "cif" -> IF s.n = "eq" THEN <<s.v, s.v>> ELSE <<s.w, s.w>>     \* MODE is fast: the texts are compared
       [] s.k \in {"def", "ifd"} -> <<s.v, s.v>>
       [] s.k = "cel" -> <<s.w, s.w>>
